@@ -72,7 +72,8 @@ def run_family(run, fam, cases, known_classes):
     t0 = time.time()
     impl = core.run_lines(hexe, fam.sub, cases, env=fam.env)
     t1 = time.time()
-    model = core.run_lines(dexe, fam.sub, cases)
+    # families that judge the implementation only (no correspondence: split returns no model part) may skip the model run
+    model = [None] * len(cases) if getattr(fam, "no_model", False) else core.run_lines(dexe, fam.sub, cases)
     t2 = time.time()
     if getattr(fam, "prejudge", None):       # optional bulk pre-computation for prop_judge (e.g. a judge sub-command)
         fam.prejudge(cases, impl, model)
